@@ -78,6 +78,7 @@ type Engine struct {
 	dynType      map[string]types.Type
 	arrayMode    bool
 	usedNilChan  bool
+	loopDepth    int
 	lastAnyArgs  []Value
 	globalErrs   map[string]*Term
 	extraStreams []*Term
@@ -359,6 +360,11 @@ func (e *Engine) execStmt(s ast.Stmt, st *State) []Out {
 		}
 		unsup("branch %s", x.Tok)
 	case *ast.GoStmt:
+		if _, isLit := ast.Unparen(x.Call.Fun).(*ast.FuncLit); !isLit && e.loopDepth > 0 {
+			// `go f(args)` inside a loop: the callee's contract takes effect at once (Kahn sequentialisation)
+			e.eval(x.Call, st)
+			return []Out{{st: st}}
+		}
 		st.procs = append(st.procs, x)
 		// evaluate arguments of `go f(args)` now (ownership moves at spawn); literal bodies run later
 		return []Out{{st: st}}
